@@ -7,10 +7,13 @@ import (
 	"encoding/binary"
 	"fmt"
 	"net/netip"
+	"runtime"
 	"sort"
 	"strings"
 	"testing"
+	"testing/cryptotest"
 
+	"github.com/slackhq/nebula/cert"
 	"github.com/slackhq/nebula/config"
 	"github.com/slackhq/nebula/header"
 	"github.com/slackhq/nebula/noiseutil"
@@ -130,8 +133,51 @@ func (w *c15World) teach() {
 	b.injectRelays(cn.vpnIP, []netip.Addr{r.vpnIP})
 }
 
+// c15TB lets the world builder survive a flake of the shared node assembly on an oversubscribed machine ("lighthouse
+// query worker did not exit": a goroutine-count wait loop that can time out when the box is 5-8x oversubscribed): the
+// failure is turned into a panic that c15Net recovers from, and the build is retried. Any other failure stays fatal.
+type c15TB struct{ testing.TB }
+type c15Retry struct{ msg string }
+
+func (b c15TB) Fatalf(format string, args ...any) { panic(c15Retry{fmt.Sprintf(format, args...)}) }
+func (b c15TB) Fatal(args ...any)                 { panic(c15Retry{fmt.Sprint(args...)}) }
+
+// c15Net = vRelayNet(+C) with pinned randomness exactly as vNewNet does it, retried on the assembly flake.
+func c15Net(t testing.TB, seed int64) (net *vnet) {
+	extra := vnodeSpec{Name: "c", Networks: "10.0.0.3/24", Udp: "192.0.2.3:4242", Overrides: m{"relay": m{"use_relays": true}}}
+	for attempt := 0; ; attempt++ {
+		func() {
+			defer func() {
+				if r := recover(); r != nil {
+					rt, ok := r.(c15Retry)
+					if !ok {
+						panic(r)
+					}
+					if attempt >= 3 || !strings.Contains(rt.msg, "did not exit") {
+						t.Fatalf("%s", rt.msg)
+					}
+					runtime.Gosched()
+					net = nil
+				}
+			}()
+			vGetPKI()
+			for _, sp := range []vnodeSpec{{Name: "a", Networks: "10.0.0.1/24"}, {Name: "r", Networks: "10.0.0.9/24"}, {Name: "b", Networks: "10.0.0.2/24"}, extra} {
+				vGetPKI().leafFor(sp.Name, sp.Networks, sp.Unsafe, sp.Groups, cert.Version2) // minted once, before randomness is pinned
+			}
+			if tt, ok := t.(*testing.T); ok {
+				cryptotest.SetGlobalRandom(tt, uint64(seed)+1)
+			}
+			net = vRelayNet(c15TB{t}, seed, extra)
+			net.tb = t
+		}()
+		if net != nil {
+			return net
+		}
+	}
+}
+
 func c15New(t testing.TB, c *mc.Check, st *c15Stats) *c15World {
-	net := vRelayNet(t, c.Seed(), vnodeSpec{Name: "c", Networks: "10.0.0.3/24", Udp: "192.0.2.3:4242", Overrides: m{"relay": m{"use_relays": true}}})
+	net := c15Net(t, c.Seed())
 	w := &c15World{t: t, c: c, st: st, net: net, a: net.node("a"), r: net.node("r"), b: net.node("b"), cn: net.node("c"), pend: -1,
 		tunPos: map[string]int{}, nb: make([]byte, 12)}
 	c15PeerFirewall(t, w.b)
